@@ -7,7 +7,7 @@ property oracles read that log.
 """
 import hashlib
 
-from . import acmodel, codec
+from . import acmodel, byz, codec
 from .acmodel import FT_CONTROL, FT_QUERY
 
 MIN_LAT = 1.0 / 1024
@@ -187,6 +187,19 @@ class RefDevice:
         if d.get("drop"):
             self._fire("silent_hs")
             return
+        if d.get("byz") is not None:
+            b = d["byz"]
+            nonce = self.next_nonce()
+            k = self.key if self.key is not None else bytes(32)
+            body = codec.v3_handshake_reply_body(k, nonce)
+            inner = bytes.fromhex(b["inner"]) if b.get("inner") is not None else body
+            pkt = byz.forge_v3(b.get("v3"), codec.v3_session_key(k, nonce), self._txc(conn), inner, d.get("seed", 0))
+            self._fire("byz_hs:" + (b.get("v3") or {}).get("kind", "inner"))
+            conn.send(pkt, lat=lat, cuts=self._cuts(d, len(pkt)))
+            if d.get("then_honest"):
+                st["keys"].append(codec.v3_session_key(k, nonce))
+                conn.send(codec.v3_encode_plain(self._txc(conn), body, codec.T_HANDSHAKE_RESPONSE), lat=lat)
+            return
         if d.get("raw") is not None:
             self._fire("hs_raw")
             conn.send(bytes.fromhex(d["raw"]), lat=lat, cuts=self._cuts(d, len(d["raw"]) // 2))
@@ -307,6 +320,17 @@ class RefDevice:
             if m is not None:
                 msgs.append(m)
         resp_pkts = [self.wrap(conn, f, key) for f in frames]
+        if d.get("byz") is not None:
+            b = d["byz"]
+            seed = d.get("seed", 0)
+            inner = byz.forge_v2(b.get("v2"), self.device_id, frames[0] if frames else b"", seed)
+            if b.get("inner") is not None:
+                inner = bytes.fromhex(b["inner"])
+            pkt = byz.forge_v3(b.get("v3"), key, self._txc(conn), inner, seed) if key is not None else inner
+            self._fire("byz:" + ((b.get("v3") or b.get("v2") or {}).get("kind", "inner")))
+            resp_pkts = [pkt]
+            if d.get("then_honest"):
+                resp_pkts += [self.wrap(conn, f, key) for f in frames]
         if d.get("raw") is not None:
             self._fire("raw_reply")
             resp_pkts = [bytes.fromhex(d["raw"])]
